@@ -35,20 +35,30 @@ EvalAst(a, vals) ==
 
 (* A slot is what the text replaces by value[annotation]:                  *)
 (*   term      a dice term (record e.terms[ti])                            *)
-(*   nested    (XdY)dS: the count is itself rolled; record ti is the outer *)
-(*             term, record sub the inner one, shown as ",XdY=v"           *)
+(*   nested    a dice term whose count, sides or keep-count are themselves *)
+(*             sums over rolls and variables, (2d3+x)d(1d4): record ti is  *)
+(*             the outer term, subs what its operands contain, each shown  *)
+(*             after the main part as ",text=value"                        *)
 (*   var       a variable holding an integer; annotated with its name      *)
 (*   computed  a computed value; annotated name=process=value              *)
 SlotValue(e, s) == IF s.k \in {"term", "nested"} THEN e.terms[s.ti].total ELSE s.value
 
 CheckSlot(e, s) ==
   CASE s.k = "term"     -> Tag(s.hasSpan /\ s.annotOk, "annotation")
-    [] s.k = "nested"   -> Tag(s.hasSpan, "annotation")
-                           \cup (IF e.aligned
-                                 THEN Tag(s.annotOk /\ s.annotName = s.name /\ s.annotValue = e.terms[s.sub].total, "sub-roll")
-                                 ELSE {})
-                           \* the outer term rolled as many dice as the inner one totals (its record was built so)
-                           \cup Tag(e.terms[s.ti].p.times = e.terms[s.sub].total, "sub-roll-count")
+    [] s.k = "nested"   ->
+         LET m == Len(s.subs)
+             sv == [i \in 1..m |-> IF s.subs[i].k = "term" THEN e.terms[s.subs[i].ti].total ELSE s.subs[i].value]
+             o == e.terms[s.ti] IN
+         Tag(s.hasSpan /\ \A i \in 1..m : s.subs[i].hasSpan, "annotation")
+         \* a variable inside an operand shows the value it holds
+         \cup Tag(\A i \in 1..m : s.subs[i].k = "var" => s.subs[i].value = s.subs[i].assigned, "sub-roll")
+         \* every roll and variable inside the operands is listed after the main part, in source order, with its value
+         \cup (IF e.aligned
+               THEN Tag(s.annotOk /\ Len(s.annotSubs) = m
+                        /\ \A i \in 1..Len(s.annotSubs) : i <= m => (s.annotSubs[i].name = s.subs[i].name /\ s.annotSubs[i].value = sv[i]), "sub-roll")
+               ELSE {})
+         \* the operands of the outer term are the values of its sub-expressions (its record was built so)
+         \cup Tag(o.p.times = EvalAst(s.timesAst, sv) /\ o.p.sides = EvalAst(s.sidesAst, sv) /\ o.p.cnt = EvalAst(s.cntAst, sv), "sub-roll-count")
     [] s.k = "var"      -> Tag(s.hasSpan, "annotation")
                            \cup (IF e.aligned /\ Len(e.slots) > 1 THEN Tag(s.annotName = s.name, "annotation") ELSE {})
     [] s.k = "computed" -> Tag(s.hasSpan, "annotation")
@@ -65,7 +75,9 @@ CheckDetail(e) ==
        \cup Tag(e.detail2 = e.detail, "not-idempotent")
        \cup Tag(e.retAfter = e.ret /\ e.varsAfter = e.varsBefore /\ e.seedAfter = e.seedBefore, "observation-changed-state")
        \* every slot was evaluated once, in source order
-       \cup Tag(e.marks = Len(e.terms) + Cardinality({i \in 1..n : e.slots[i].k \in {"var", "computed"}}), "evaluation-count")
+       \cup Tag(e.marks = Len(e.terms) + Cardinality({i \in 1..n : e.slots[i].k \in {"var", "computed"}})
+                             + Cardinality({ij \in (1..n) \X (1..8) : e.slots[ij[1]].k = "nested" /\ ij[2] <= Len(e.slots[ij[1]].subs)
+                                                                        /\ e.slots[ij[1]].subs[ij[2]].k = "var"}), "evaluation-count")
        \* the result is what the shown values imply
        \cup Tag(e.ret = EvalAst(e.ast, vals), "result-vs-values")
        \* structure of the text
